@@ -77,7 +77,8 @@ G = {
     "IrregularlyBin": {
         "req": {
             "entries": ENT, "bins:type": ("type",),
-            "bins": ("list", ("obj", {"atleast": NUM, "data": ("frag", "bins:type", True)}, {}), 0),
+            # (toJson always writes the bin that starts at -inf: a document without any bin is not a serialisation)
+            "bins": ("list", ("obj", {"atleast": NUM, "data": ("frag", "bins:type", True)}, {}), 1),
             "nanflow:type": ("type",), "nanflow": ("frag", "nanflow:type", False),
         },
         "opt": {"name": NAME, "bins:name": NAME},
